@@ -170,7 +170,33 @@ def run_harness(ctx, scenarios, name, binary=None, shards=None, env=None):
         jobs.append((sp, os.path.join(ctx.scratch, '%s.%d.trace.ndjson' % (name, i))))
     with ThreadPoolExecutor(max_workers=len(jobs)) as ex:
         futs = [ex.submit(run_harness_file, ctx, sp, tp, binary, 1800, env) for sp, tp in jobs]
-        return [f.result() for f in futs]
+        out = [f.result() for f in futs]
+    for tp in out:
+        crash_to_return(ctx, tp)
+    return out
+
+CRASH_PROPS = ('C09', 'C10', 'C19')      # the properties that state "the process never crashes"
+
+def crash_to_return(ctx, tp):
+    """A panic in a goroutine of the code under test kills the harness process; the scenario in progress then has only its
+    Begin line plus the Crash line added by run_harness_file. Give it a Params (entry = crash) and a Return (panic) so that
+    the observer sees it: the no-crash properties report it, every other check is inconclusive (exit 2) rather than silent."""
+    lines = open(tp).read().splitlines()
+    if not any('"Crash"' in l for l in lines):
+        return
+    outl = []
+    for l in lines:
+        e = json.loads(l) if '"Crash"' in l else None
+        if e is None or e.get('event') != 'Crash':
+            outl.append(l)
+            continue
+        if e.get('race'):
+            outl.append(l)       # race reports are handled by the C14 check itself
+            continue
+        ctx.extra.setdefault('crashes', []).append({'scenario': e['scen'], 'panic': e['msg']})
+        outl.append(json.dumps(dict(event='Params', scen=e['scen'], n=1, t=0, variant='crash', entry='crash')))
+        outl.append(json.dumps(dict(event='Return', scen=e['scen'], n=2, t=0, ok=False, panic=e['msg'] or 'process died', has_result=False)))
+    open(tp, 'w').write('\n'.join(outl) + '\n')
 
 def tlc_generate(ctx, module, gen, n=0, extra_env=None):
     out = os.path.join(ctx.scratch, 'gen-%s.ndjson' % gen.replace('/', '_'))
@@ -302,14 +328,25 @@ def confirm_and_report(ctx, scen_by_id, violations, props, observer='TraceObs', 
         group = [s]
         if s.get('twin') and s['twin'] in scen_by_id:
             group = [scen_by_id[s['twin']], s]
-        if rerun is None:
-            traces = run_harness(ctx, group, 'confirm-%d' % len(seen), shards=1)
-        else:
-            traces = rerun(group, 'confirm-%d' % len(seen))
-        again = observe(ctx, traces, props, module=observer)
+        # re-execution (deterministic under the virtual clock; a violation that hinges on a same-instant tie may need
+        # another attempt to take the same order)
+        again = []
+        for attempt in range(3):
+            if rerun is None:
+                traces = run_harness(ctx, group, 'confirm-%d-%d' % (len(seen), attempt), shards=1)
+            else:
+                traces = rerun(group, 'confirm-%d-%d' % (len(seen), attempt))
+            again = observe(ctx, traces, props, module=observer)
+            if (prop, sid) in again:
+                break
         if (prop, sid) not in again:
+            # not reproduced in 3 re-executions: this one is inconclusive; go on with the other violating scenarios
             ctx.notes.append('violation of %s on %s did not reproduce on re-execution' % (prop, sid))
-            raise Infra('L1 violation %s/%s did not reproduce on replay (inconclusive)' % (prop, sid))
+            ctx.extra.setdefault('unreproduced', []).append(sid)
+            seen.discard((prop, label))
+            if len(ctx.extra['unreproduced']) > 12:
+                break
+            continue
         evs = read_traces(traces)
         allev = [e for g in group for e in evs.get(g['id'], [])]
         kf = [k for k in known if k['property'] == prop and fnmatch.fnmatchcase(label, k['signature'])]
@@ -319,7 +356,12 @@ def confirm_and_report(ctx, scen_by_id, violations, props, observer='TraceObs', 
         path = save_replay(ctx, prop, group, allev, 'label: %s' % label)
         ctx.violations.append((prop, label, sid, path))
 
+def check_unreproduced(ctx):
+    if ctx.extra.get('unreproduced') and not ctx.violations and not ctx.known:
+        raise Infra('%d L1 violation(s) did not reproduce on replay and none did (inconclusive), e.g. %s' % (len(ctx.extra['unreproduced']), ctx.extra['unreproduced'][0]))
+
 def write_evidence(ctx, level, rule, exhaustive=False, trusted=None):
+    check_unreproduced(ctx)
     cov = {
         'evaluations': ctx.evaluations,
         'distinct_nontrivial': len(ctx.nontrivial),
